@@ -164,6 +164,8 @@ type diffTmpl struct {
 }
 
 var c01Templates = []diffTmpl{
+	// a literal as the object of an assignment target is an error, not a store somewhere else
+	{"local t = {}; local ok = pcall(function() ('abc').k = x end); local ok2 = pcall(function() (10).k = y end); local ok3 = pcall(function() (nil).k = z end); emit(ok, ok2, ok3, t.k); (t).k = x; emit(t.k)", "num"},
 	// surplus right-hand expressions are evaluated before any store
 	{"local function pr(v) emit('pr', v); return v end; local a, b = x, y; a, b = z, a + 1, pr(b); emit(a, b); local p = x; p = y, pr(p); emit(p); local t = {}; t.k, p = 1, z, pr(p), pr(t.k); emit(t.k, p)", "num"},
 	// multiple assignment: all right-hand sides and left-hand prefixes/keys before any store
@@ -312,7 +314,7 @@ func c01Inputs(kind string) []diffInput {
 
 // C01.tmpl — whole-pipeline differential against R-lua.
 //
-//verif:harness prop=C01 tier=quick bounds="87 program templates organised by compiler special case (multiple assignment shapes, destination kinds, relational/logical contexts, loops, goto, tables, closures, varargs, errors, coercions); inputs: 3 symbolic float64 / 3 symbolic 32-bit integers / 2 values of any scalar type"
+//verif:harness prop=C01 tier=quick bounds="88 program templates organised by compiler special case (multiple assignment shapes, destination kinds, relational/logical contexts, loops, goto, tables, closures, varargs, errors, coercions); inputs: 3 symbolic float64 / 3 symbolic 32-bit integers / 2 values of any scalar type"
 func H_C01_tmpl() {
 	t := c01Templates[VChoice(len(c01Templates))]
 	diffRun(t.src, t.src, c01Inputs(t.kind), Options{})
@@ -390,6 +392,9 @@ func H_C02_tmpl() {
 }
 
 var c03Templates = []diffTmpl{
+	// closures over the locals of a frame that fails under xpcall while the handler fails too
+	{"local g1, g2; local function body() local a, b = x, y; g1 = function() return a end; g2 = function() b = b + 1; return b end; error('boom') end; local ok = xpcall(body, function(m) error('handler fails too') end); local function reuse(p, q, r) local u, v, w = 91, 92, 93; return u end; reuse(1, 2, 3); local l1, l2, l3 = 5, 6, 7; emit(ok, g1(), g2(), g2(), l1, l2, l3)", "int"},
+	{"local gs = {}; local function deep(n) local v = n + x; gs[#gs + 1] = function() v = v + 1; return v end; if n == 0 then error({}) end; return deep(n - 1) + 1 end; local ok = xpcall(function() return deep(2) end, function(m) local t = nil; return t.field end); local a, b, c, d = 1, 2, 3, 4; emit(ok, gs[1](), gs[2](), gs[3](), gs[1](), a, b, c, d)", "int"},
 	// environments: free names resolve through the environment of the function that mentions them
 	{"local function f() return v end; setfenv(f, {v = x}); emit(f()); v = y; emit(f()); emit(getfenv(f).v, getfenv(f) == _G)", "num"},
 	{"local function mk() return function() return v end end; setfenv(mk, {v = x}); local g = mk(); v = y; emit(g()); setfenv(mk, {v = z}); emit(g(), mk()())", "num"},
@@ -430,7 +435,7 @@ var c03Templates = []diffTmpl{
 
 // C03.tmpl — closures and captured variables on every exit path, whole pipeline against R-lua.
 //
-//verif:harness prop=C03 tier=quick bounds="35 closure templates: creation in numeric/generic for, while, repeat, do-blocks and calls; scope left by fall-through, break, goto, return, tail call, caught errors; getfenv/setfenv by function and by level, inheritance of the creator's environment; register-reusing calls before use; inputs symbolic"
+//verif:harness prop=C03 tier=quick bounds="37 closure templates: creation in numeric/generic for, while, repeat, do-blocks and calls; scope left by fall-through, break, goto, return, tail call, caught errors; getfenv/setfenv by function and by level, inheritance of the creator's environment; register-reusing calls before use; inputs symbolic"
 func H_C03_tmpl() {
 	t := c03Templates[VChoice(len(c03Templates))]
 	diffRun(t.src, t.src, c01Inputs(t.kind), Options{})
@@ -438,6 +443,9 @@ func H_C03_tmpl() {
 }
 
 var c04Templates = []diffTmpl{
+	// __newindex chains through tables: each table on the chain is asked raw first, and its own __newindex only for an absent key
+	{"local log = {}; local c = setmetatable({x = 1}, {__newindex = function(t, k, v) log[#log + 1] = k; rawset(t, k, v) end}); local a = setmetatable({}, {__newindex = c}); a.x = x; a.y = y; local key = 'x'; a[key] = z; emit(c.x, c.y, rawget(a, 'x'), rawget(a, 'y'), #log, log[1], log[2])", "num"},
+	{"local c = setmetatable({g = 1}, {__newindex = function(t, k, v) rawset(t, k, 'via-handler') end}); local env = setmetatable({}, {__newindex = c, __index = _G}); local function f() g = x; h = y end; setfenv(f, env); f(); emit(c.g, c.h, rawget(env, 'g'), rawget(env, 'h'))", "num"},
 	{"local mt = {__add = function(a, b) return x end, __sub = function(a, b) return y end}; local o = setmetatable({}, mt); emit(o + 1, 1 + o, o - o, o + 'a')", "num"},
 	{"local log = {}; local mt = {__concat = function(a, b) return type(a) .. type(b) end}; local o = setmetatable({}, mt); emit(o .. 'a', 'a' .. o, 1 .. o, o .. o)", "num"},
 	{"local mt = {__index = function(t, k) return k .. 'x' end}; local o = setmetatable({real = x}, mt); emit(o.real, o.missing, rawget(o, 'missing'))", "num"},
@@ -460,7 +468,7 @@ var c04Templates = []diffTmpl{
 
 // C04.tmpl — metamethod dispatch, whole pipeline against R-lua (manual section 2.8).
 //
-//verif:harness prop=C04 tier=quick bounds="18 metamethod templates: arithmetic/concat left-then-right, __index/__newindex through functions and tables (chains <= 3), __eq identity rule, __lt/__le with fallback, __unm, __call in statement/tail/iterator position, __metatable, missing handlers; inputs symbolic"
+//verif:harness prop=C04 tier=quick bounds="20 metamethod templates: arithmetic/concat left-then-right, __index/__newindex through functions and tables (chains <= 3), __eq identity rule, __lt/__le with fallback, __unm, __call in statement/tail/iterator position, __metatable, missing handlers; inputs symbolic"
 func H_C04_tmpl() {
 	t := c04Templates[VChoice(len(c04Templates))]
 	diffRun(t.src, t.src, c01Inputs(t.kind), Options{})
